@@ -22,6 +22,7 @@ type Program struct {
 	DirToPkg map[string]string
 	ByPath   map[string]*packages.Package
 	RepoDir  string
+	sums     *Summaries
 }
 
 const repoModule = "github.com/sdcio/data-server"
